@@ -20,8 +20,12 @@ import numpy as np
 from core import Driver, Failure, nl, q
 
 ID = "C10"
-PROOF_MODULES = ["PyribsProofs.C10"]
+from genf import translate  # noqa: E402,F401  (regenerates lean/PyribsGen/Formulas.lean from the tree under check)
+PROOF_MODULES = ["PyribsProofs.C10", "PyribsGen.Formulas", "PyribsProofs.GenFCtl"]
 THEOREMS = [
+    # the parent-count line of EvolutionStrategyEmitter.tell, regenerated from the source
+    "Pyribs.GenFProofs.es_num_parents_matches",
+    "Pyribs.GenFProofs.num_parents_rules",
     "Pyribs.C10.parents_spec",
     "Pyribs.C10.parents_filter",
     "Pyribs.C10.parents_mu",
